@@ -476,3 +476,54 @@ func init() {
 		Properties[pid].Rules = append(Properties[pid].Rules, Rule{pid + "/marshal-splices", func(c *Ctx) { ruleMarshalSplices(c, pid+"/marshal-splices") }})
 	}
 }
+
+// The set of required names that ApplyDefaults consults is built for every schema that has a `required` list: the
+// store of the set is guarded by tests of that list only, not by the schema's type or anything else (a schema whose
+// type is ["object","null"] requires its properties just the same).
+func init() {
+	Properties["C15"].Rules = append(Properties["C15"].Rules, Rule{"C15/required-set-unconditional", ruleRequiredSetUnconditional})
+}
+
+func ruleRequiredSetUnconditional(c *Ctx) {
+	const rule = "C15/required-set-unconditional"
+	n := 0
+	for _, fn := range c.Closure(rule, "RES").Minus(c.Closure(rule, "EV")).Sorted() {
+		core.EachInstr(fn, func(i ssa.Instruction) {
+			st, ok := i.(*ssa.Store)
+			if !ok {
+				return
+			}
+			fa, ok := st.Addr.(*ssa.FieldAddr)
+			if !ok || c.fieldName(fa.X.Type(), fa.Field) != "resolvedInfo.isRequired" {
+				return
+			}
+			n++
+			var extra []string
+			for _, g := range controlGuards(st) {
+				if g.At.Parent() != st.Parent() {
+					continue
+				}
+				if c.mentionsField(g.Cond, "Schema.Required", 5) || isErrNilTest(g.Cond) || isRangeCond(g.Cond) {
+					continue
+				}
+				if !skippable(g, st) {
+					continue
+				}
+				// only tests of the schema itself matter (a nil test of the schema, of the info ...)
+				mentionsSchema := false
+				for _, v := range backSlice(g.Cond, 12) {
+					if ld, ok := v.(*ssa.UnOp); ok && ld.Op == token.MUL {
+						if fa2, ok := ld.X.(*ssa.FieldAddr); ok && strings.HasPrefix(c.fieldName(fa2.X.Type(), fa2.Field), "Schema.") {
+							mentionsSchema = true
+						}
+					}
+				}
+				if mentionsSchema {
+					extra = append(extra, c.pos(g.At))
+				}
+			}
+			c.R.Check(len(extra) == 0, rule, fmt.Sprintf("%s:required-set#%d", core.FuncName(fn), n), c.pos(st), "the set of required names is built whenever the schema has a required list", fmt.Sprintf("whether the set of required names is built depends on other keywords of the schema (tests at %v): for such a schema ApplyDefaults sees no required names and fills a required property with its default", extra))
+		})
+	}
+	c.R.Floor(rule, "stores of the required-name set", n, 1)
+}
